@@ -149,8 +149,83 @@ func c17MaskNodes(n int, masks []uint32, tail func(j, b int) []byte) []string {
 	return ks
 }
 
+// pairs-reused: a binary half-byte caterpillar with k distinct label pairs, each used by 3 inner
+// nodes, every inner node but the root with a step: few keys, many label bitmaps of equal
+// popcount that are each reused - the regime where the short-node table is (just) not worth it
+func c17PairsReused(r *RNG, n int) []string {
+	type pair struct{ a, b byte }
+	all := []pair{}
+	for a := byte(0); a < 16; a++ {
+		for b := a + 1; b < 16; b++ {
+			all = append(all, pair{a, b})
+		}
+	}
+	k := (n + 6) / 3
+	if k < 2 {
+		k = 2
+	}
+	if k > 100 {
+		k = 100
+	}
+	stride, start := 7, 0
+	if r.Intn(2) == 1 {
+		stride, start = []int{11, 13, 17}[r.Intn(3)], r.Intn(len(all))
+	}
+	chosen := []pair{}
+	for i := start; len(chosen) < k; i += stride {
+		chosen = append(chosen, all[i%len(all)])
+	}
+	keys := []string{}
+	spine := []byte{}
+	for i := 0; i < k*3 && len(spine) < 30000; i++ {
+		p := chosen[i%k]
+		cont, leaf := p.a, p.b
+		if i%2 == 1 {
+			cont, leaf = p.b, p.a
+		}
+		keys = append(keys, c17FromNibs(append(append([]byte{}, spine...), leaf)))
+		spine = append(spine, cont, 0x5, 0xa)
+	}
+	return append(keys, c17FromNibs(spine))
+}
+
+// mixed-levels: the root fans out to more than ten bytes; below its first child hangs an
+// 11-ary byte caterpillar (a node worth 257 bits on every level), below all its other children
+// binary byte caterpillars: every breadth-first level starts with one wide node followed by
+// many narrow ones
+func c17MixedLevels(r *RNG, n int) []string {
+	trees := 12 + r.Intn(30)
+	depth := n / (10 + 2*trees)
+	if depth < 2 {
+		depth = 2
+	}
+	if depth > 300 {
+		depth = 300
+	}
+	keys := []string{}
+	spine := []byte{0x01}
+	for i := 0; i < depth; i++ {
+		for b := byte(2); b <= 11; b++ {
+			keys = append(keys, string(append(append([]byte{}, spine...), b)))
+		}
+		spine = append(spine, 0x01)
+	}
+	keys = append(keys, string(spine))
+	for t := 0; t < trees; t++ {
+		sp := []byte{0x10 + byte(t)*3}
+		for i := 0; i < depth; i++ {
+			keys = append(keys, string(append(append([]byte{}, sp...), 0x02)))
+			sp = append(sp, 0x01)
+		}
+		keys = append(keys, string(sp))
+	}
+	return keys
+}
+
 func c17Shapes(maxCat int) []c17Shape {
 	return []c17Shape{
+		{"pairs-reused", c17PairsReused, 400},
+		{"mixed-levels", c17MixedLevels, 1 << 30},
 		{"caterpillar", func(r *RNG, n int) []string {
 			// binary caterpillar in half-bytes: 1^i 2, every inner node has two labels, depth n
 			ks := make([]string, 0, n)
